@@ -16,7 +16,9 @@
              differs from the design model Sketch.tla: reported, never a violation.
 
    Events (one JSON object per line):
-     {ev:"New", t, obj:"lfu"|"sketch"|"row"|"size", nc, w, resetAt, seedlow:[4], lows:[..], alias:[[k,a]..]}
+     {ev:"New", t, obj:"lfu"|"sketch"|"bigsketch"|"row"|"size", nc, w, resetAt, seedlow:[4], lows:[..], alias:[[k,a]..]}
+          (bigsketch: a cmSketch too wide to log or model counter by counter - NumCounters >= 2^19, where the code
+           may take other paths than for small tables; judged at interface level only, tab = [])
           lows[k] = low bits (hash AND mask) of key k; alias [k,a]: the doorkeeper reports k as soon as a is in
      {ev:"Preload", tab, est}                          white-box: table overwritten (right after New)
      {ev:"Inc", ks:[k], est, tab, door, incrs}         tinyLFU.Increment / cmSketch.Increment
@@ -71,6 +73,7 @@ DriftOf(e, st) ==
 
 (* ---------------------------------- observer (C18) ---------------------------------------- *)
 ZeroCnt == [k \in K |-> 0]
+Big == obj = "bigsketch"
 \* which accesses are still "since the last aging reset" after recording ks, and was there a reset
 RECURSIVE Fold(_, _)
 Fold(acc, ks) ==
@@ -114,7 +117,7 @@ Step(e) ==
   CASE e.ev = "New" ->
          /\ tid' = e.t /\ obj' = e.obj /\ w' = e.w /\ resetAt' = e.resetAt /\ seedlow' = e.seedlow
          /\ lows' = e.lows /\ alias' = e.alias
-         /\ tab' = [i \in 1..4 |-> [n \in 1..e.w |-> 0]] /\ door' = {} /\ incrs' = 0
+         /\ tab' = (IF e.obj = "bigsketch" THEN <<>> ELSE [i \in 1..4 |-> [n \in 1..e.w |-> 0]]) /\ door' = {} /\ incrs' = 0
          /\ cnt' = [k \in DOMAIN e.lows |-> 0] /\ incn' = 0 /\ prev' = [k \in DOMAIN e.lows |-> 0]
          /\ UNCHANGED <<bad, drift>>
     [] e.ev = "Preload" ->
@@ -123,33 +126,34 @@ Step(e) ==
          /\ UNCHANGED <<tid, obj, w, resetAt, seedlow, lows, alias, door, incrs, cnt, incn, bad>>
     [] e.ev \in {"Inc", "Push"} ->
          LET acc == Fold([cnt |-> cnt, incn |-> incn, reset |-> FALSE], e.ks)
-             st  == PushM([tab |-> tab, door |-> door, incrs |-> incrs], e.ks)
+             st  == IF Big THEN [tab |-> tab, door |-> door, incrs |-> incrs]
+                    ELSE PushM([tab |-> tab, door |-> door, incrs |-> incrs], e.ks)
          IN
          /\ bad' = bad \cup Bounds(e, acc.cnt)
                        \cup Flag(acc.reset \/ \A k \in K : e.est[k] >= prev[k],
                                  e.ev \o ": recording an access lowered an estimate")
                        \cup Flag(~(acc.reset /\ Len(e.ks) = 1) \/ \A k \in K : HalfLoose(prev[k], e.est[k]),
                                  e.ev \o ": the aging reset due after NumCounters increments did not halve the estimates")
-         /\ drift' = drift \cup DriftOf(e, st)
+         /\ drift' = drift \cup (IF Big THEN {} ELSE DriftOf(e, st))
          /\ tab' = st.tab /\ door' = st.door /\ incrs' = st.incrs
          /\ cnt' = acc.cnt /\ incn' = acc.incn /\ prev' = e.est
          /\ UNCHANGED <<tid, obj, w, resetAt, seedlow, lows, alias>>
     [] e.ev = "Reset" ->
-         LET st == [tab |-> TabHalve(tab), door |-> {}, incrs |-> 0] IN
+         LET st == [tab |-> IF Big THEN tab ELSE TabHalve(tab), door |-> {}, incrs |-> 0] IN
          /\ bad' = bad \cup Bounds(e, ZeroCnt)
                        \cup Flag(\A k \in K :
-                                   IF obj = "sketch" THEN e.est[k] = prev[k] \div 2
+                                   IF obj \in {"sketch", "bigsketch"} THEN e.est[k] = prev[k] \div 2
                                    ELSE IF cnt[k] > 0 THEN e.est[k] = (prev[k] - 1) \div 2
                                    ELSE e.est[k] = prev[k] \div 2 \/ (prev[k] >= 1 /\ e.est[k] = (prev[k] - 1) \div 2),
                                  "Reset: an estimate is not the half (rounded down) of the counter value, first-access mark forgotten")
-         /\ drift' = drift \cup DriftOf(e, st)
+         /\ drift' = drift \cup (IF Big THEN {} ELSE DriftOf(e, st))
          /\ tab' = st.tab /\ door' = {} /\ incrs' = 0
          /\ cnt' = ZeroCnt /\ incn' = 0 /\ prev' = e.est
          /\ UNCHANGED <<tid, obj, w, resetAt, seedlow, lows, alias>>
     [] e.ev = "Clear" ->
-         LET st == [tab |-> TabZero, door |-> {}, incrs |-> 0] IN
+         LET st == [tab |-> IF Big THEN tab ELSE TabZero, door |-> {}, incrs |-> 0] IN
          /\ bad' = bad \cup Flag(\A k \in K : e.est[k] = 0, "Clear: an estimate is not zero afterwards")
-         /\ drift' = drift \cup DriftOf(e, st)
+         /\ drift' = drift \cup (IF Big THEN {} ELSE DriftOf(e, st))
          /\ tab' = st.tab /\ door' = {} /\ incrs' = 0
          /\ cnt' = ZeroCnt /\ incn' = 0 /\ prev' = e.est
          /\ UNCHANGED <<tid, obj, w, resetAt, seedlow, lows, alias>>
